@@ -1295,6 +1295,9 @@ class TermBuilder:
                     upd = self._dict_updates(k.value, at, env)
                     if upd is None:
                         kws.append(("**", v))
+                    elif upd == "opaque" and v[0] == "comp" and v[1] == "dict" and self._is_built_dict(k.value, at):
+                        # filled by ONE store in ONE loop and nothing else: its term already is that comprehension (_built_dict)
+                        kws.append(("**", v))
                     elif upd == "opaque":
                         # filled by stores this builder does not model (in a loop, under a condition, computed keys, update()):
                         # the call does not pass the dict its name was bound to
@@ -1357,6 +1360,14 @@ class TermBuilder:
                 return "opaque"
             out.append((st.lineno, hit.slice.value, self.term(st.value, st, env)))
         return [(k, v) for _ln, k, v in sorted(out, key=lambda x: x[0])]
+
+    def _is_built_dict(self, node, at):
+        """the local name's only definition reaching `at` is an empty dict whose filling loop _built_dict has read as a comprehension"""
+        try:
+            defs = [x for x in self.rd.reaching(node.id, at) if x.kind != "del"]
+        except Exception:
+            return False
+        return len(defs) == 1 and defs[0].kind == "assign" and self._built_dict(defs[0].name, defs[0], at) is not None
 
     def _mutated_local(self, node):
         """node is a local name whose object is filled by later stores (its term is then only the initial display)."""
